@@ -34,8 +34,15 @@ def _one(item):
         cube[pert] = np.nextafter(v, np.float32(np.inf)) if pert[0] % 2 == 0 else -v if v != 0 else np.float32(1e-30)
     p = os.path.join(d, f'h{k}.sgz')
     try:
-        if route == 'numpy':
-            writers.numpy_to_sgz(p, cube, writers.rate_arg(rate), bs)
+        if route in ('numpy', 'numpy-F', 'numpy-view'):      # the same samples in C order, Fortran order, as a strided reversed view
+            arr = cube
+            if route == 'numpy-F':
+                arr = np.asfortranarray(cube)
+            elif route == 'numpy-view':
+                big = np.zeros((shape[0] * 2, shape[1], shape[2] + 3), dtype=np.float32)
+                big[::-2, :, 1:-2] = cube
+                arr = big[::-2, :, 1:-2]
+            writers.numpy_to_sgz(p, arr, writers.rate_arg(rate), bs)
             src = cube
         elif route in ('segy', 'segy-iops', 'segy-ibm', 'segy-reuse'):
             sgy = os.path.join(d, f'h{k}.sgy')
@@ -95,6 +102,9 @@ def plan(run):
                 P.append((route, shape, rate, bs, None))
     for shape, rate, bs in (((5, 6, 70), 8, None), ((9, 4, 33), 32, (8, 8, 16))):
         P.append(('segy-reuse', shape, rate, bs, None))
+    for shape, rate, bs in (((5, 6, 70), 16, (4, 4, -1)), ((9, 4, 33), 32, (8, 8, 16)), ((6, 8, 64), 32, (4, 4, -1)), ((9, 9, 9), 32, (16, 16, 4))):
+        P.append(('numpy-F', shape, rate, bs, None))
+        P.append(('numpy-view', shape, rate, bs, None))
     shapes2 = [(9, 70), (4, 8), (21, 33), (2, 2)] if quick else [(9, 70), (4, 8), (21, 33), (2, 2), (16, 64), (17, 65), (33, 300)]
     for shape in shapes2:
         for rate, bs in ((8, (1, 4, -1)), (16, (1, 16, -1)), (4, None), (32, (1, 8, 128))):
